@@ -4,6 +4,7 @@ from __future__ import annotations
 import ast
 
 from ..model import walk_own, dotted, strip_doc, AnalysisError
+from ..cfg import CFG
 from .. import grules as G, specs, nf, terms
 
 EXPLANATION = (
@@ -177,24 +178,54 @@ def check(ctx):
         okm = len(st) == 1 and ast.unparse(st[0].targets[0]) == "grid[:, r, c]" and ast.unparse(st[0].value).startswith("torch.stack((c_add_a, c_add_b, c_shift), 0)") \
             and ast.unparse(st[0].value).endswith(".amin(0)")
         ctx.ob("C20.d", "victor_purpura_pair_dist: cell = min(insert, delete, shift)", okm, "", vp.where)
-    txt = ast.unparse(vp.node)
-    ok = "grid[:, 0] = torch.arange(0, t0.numel() + 1" in txt and "grid[0, :] = torch.arange(0, t1.numel() + 1" in txt and "return grid[:, -1, -1]" in txt
+    # boundary rows / columns, result cell and the two documented limits, compared as terms (not as text)
+    def _T(e):
+        return terms.Builder(P, vp, {}, inline_depth=0).t(e)
+
+    def _S(src):
+        return specs.spec_term(src)
+    rows = {}
+    for st_ in walk_own(vp.node):
+        if isinstance(st_, ast.Assign) and isinstance(st_.targets[0], ast.Subscript) and isinstance(st_.targets[0].value, ast.Name) \
+                and st_.targets[0].value.id == "grid" and isinstance(st_.targets[0].slice, ast.Tuple) and len(st_.targets[0].slice.elts) == 2:
+            k = tuple("all" if isinstance(x, ast.Slice) and x.lower is None and x.upper is None else (x.value if isinstance(x, ast.Constant) else "?")
+                      for x in st_.targets[0].slice.elts)
+            ar = [c_ for c_ in ast.walk(st_.value) if isinstance(c_, ast.Call) and dotted(c_.func) == "torch.arange"]
+            if ar and len(ar[0].args) >= 2:
+                rows[k] = (_T(ar[0].args[0]), _T(ar[0].args[1]))
+    ok = rows.get(("all", 0)) is not None and nf.equal(rows[("all", 0)][0], nf.C(0)) and nf.equal(rows[("all", 0)][1], _S("t0.numel() + 1")) \
+        and rows.get((0, "all")) is not None and nf.equal(rows[(0, "all")][0], nf.C(0)) and nf.equal(rows[(0, "all")][1], _S("t1.numel() + 1"))
+    rets_ = [r for r in walk_own(vp.node) if isinstance(r, ast.Return)]
+    last = [r for r in rets_ if isinstance(r.value, ast.Subscript) and isinstance(r.value.value, ast.Name) and r.value.value.id == "grid"]
+    ok = ok and len(last) == 1 and isinstance(last[0].value.slice, ast.Tuple) and [ast.unparse(x) for x in last[0].value.slice.elts] == [":", "-1", "-1"]
     ctx.ob("C20.d", "victor_purpura_pair_dist: boundary rows count insertions / deletions; result is the last cell", ok, "", vp.where)
-    ok = "if cost == 0.0:\n            return torch.tensor([float(abs(t0.numel() - t1.numel()))]" in txt and \
-        "elif cost == float('inf'):\n            return torch.tensor([float(t0.numel() + t1.numel())]" in txt
-    ctx.ob("C20.d", "victor_purpura_pair_dist: cost 0 -> |n0 - n1|, cost inf -> n0 + n1 (the documented limits)", ok, "", vp.where)
+    g_ = CFG(vp.node)
+    lim = {}
+    for r in rets_:
+        tc = [c_ for c_ in ast.walk(r.value) if isinstance(c_, ast.Call) and dotted(c_.func) == "torch.tensor" and c_.args and isinstance(c_.args[0], ast.List) and len(c_.args[0].elts) == 1]
+        if not tc:
+            continue
+        for t_, lab in g_.guards_of(g_.node_of(r)):
+            if isinstance(t_, ast.Compare) and len(t_.ops) == 1 and isinstance(t_.ops[0], ast.Eq) and lab == "T":
+                sides = [t_.left, t_.comparators[0]]
+                other = [x for x in sides if not (isinstance(x, ast.Name) and x.id == "cost")]
+                if len(other) == 1:
+                    lim[ast.unparse(other[0])] = _T(tc[0].args[0].elts[0])
+    ok = "0.0" in lim and nf.equal(lim["0.0"], _S("abs(t0.numel() - t1.numel())")) and "float('inf')" in lim and nf.equal(lim["float('inf')"], _S("t0.numel() + t1.numel()"))
+    ctx.ob("C20.d", "victor_purpura_pair_dist: cost 0 -> |n0 - n1|, cost inf -> n0 + n1 (the documented limits)", ok, f"{ {k: nf.show(v) for k, v in lim.items()} }", vp.where)
     isi = P.fn("isi", module="core.math")
-    ctx.touch(isi)
-    txt = ast.unparse(isi.node)
-    checks = {
-        "pads one leading sentinel event": "F.pad(spikes, (1, 0), mode='constant', value=True)",
-        "event times = (index - 1) * step_time (undoing the sentinel shift)": "(nz - 1) * step_time",
-        "drops the sentinel of every train": "padding_value=float('nan'))[:, 1:]",
-        "intervals = successive differences along time": "torch.diff(intervals, dim=-1)",
-    }
-    for what, frag in checks.items():
-        ctx.ob("C20.d", f"isi: {what}", frag in txt, "" if frag in txt else f"expected `{frag}`", isi.where)
-    rets = sorted([r for r in walk_own(isi.node) if isinstance(r, ast.Return)], key=lambda r: r.lineno)
-    ok = len(rets) == 2 and "'... t -> t ...'" in ast.unparse(rets[0]) and "'t ... -> ... t'" in txt
-    ctx.ob("C20.d", "isi: time-first input is moved to time-last and the result back to time-first", ok, "", isi.where)
+    specs.compare_full(ctx, "C20.d", "isi: one leading sentinel event per train, event times (index - 1) * dt, sentinel dropped, successive differences; time-first input moved to time-last and back", isi, """
+def spec(spikes, step_time, time_first=True):
+    if time_first:
+        spikes = ein.rearrange(spikes, "t ... -> ... t")
+    padded = F.pad(spikes, (1, 0), mode="constant", value=True)
+    nz = torch.nonzero(padded)[..., -1]
+    splits = torch.nonzero(torch.logical_not(nz)).view(-1).tolist()[1:]
+    intervals = torch.tensor_split((nz - 1) * step_time, splits, dim=-1)
+    intervals = nn.utils.rnn.pad_sequence(intervals, batch_first=True, padding_value=float("nan"))[:, 1:]
+    intervals = torch.diff(intervals, dim=-1)
+    if time_first:
+        return ein.rearrange(intervals.view(*spikes.shape[:-1], -1), "... t -> t ...")
+    return intervals.view(*spikes.shape[:-1], -1)
+""", source="isi docstring", inline_depth=0)
     ctx.assume("torch.special.xlogy / lgamma / erf / gammaincc / expm1 implement their documented functions")
